@@ -53,12 +53,12 @@ type vInstView struct {
 }
 
 type vDecision struct {
-	seq    int64
-	gen    int
-	uuid   string
-	it     string
-	pre    map[cloud.InstanceID]vInstView
-	result int // -1 pending, 0 refused, 1 accepted
+	seq     int64
+	gen     int
+	uuid    string
+	it      string
+	pre     map[cloud.InstanceID]vInstView
+	result  int  // -1 pending, 0 refused, 1 accepted
 	claimed bool // a pool-side --detach call has been attributed to it
 }
 
@@ -130,18 +130,20 @@ type vMonitor struct {
 	heldNow       map[cloud.InstanceID]bool
 	// pool-side view of "crunch-run --detach" calls that have not returned to
 	// the pool yet (key vm/uuid) and the StartContainer decision behind each
-	inflight    map[string]int
-	inflightDec map[string]*vDecision
-	staleLockTO   time.Duration
-	bootTO        time.Duration
-	rng           *rand.Rand // VM plans beyond the scenario's list; guarded by mu
+	inflight     map[string]int
+	inflightDec  map[string]*vDecision
+	probeDur     []vProbeDur // ring of recent pool-side --list round trips
+	probeDurNext int
+	staleLockTO  time.Duration
+	bootTO       time.Duration
+	rng          *rand.Rand // VM plans beyond the scenario's list; guarded by mu
 
 	bugMu         sync.Mutex
 	bugs          []string
 	harnessPanics []string
-	crashes  int64 // CrashRunningContainer calls
-	finished int64 // ExecuteContainer returns
-	done     int32 // scenario over: release hung stub processes
+	crashes       int64 // CrashRunningContainer calls
+	finished      int64 // ExecuteContainer returns
+	done          int32 // scenario over: release hung stub processes
 }
 
 var vUUIDRe = regexp.MustCompile(`.{5}-dz642-.{15}`)
@@ -855,4 +857,3 @@ func (m *vMonitor) setIdleBehavior(p pool, gen int, id cloud.InstanceID, ib work
 	}
 	m.mu.Unlock()
 }
-
